@@ -25,6 +25,10 @@
 //	                  (the target's LATENCY; not less than the deadline the call arrived with = not answered in
 //	                  time);  h<salt>.<permille> = content-keyed (engine mode): a call is answered with
 //	                  an injected status chosen by a hash of salt+method+message+metadata in permille/1000 of the cases
+//	      au=<hex|->  observe the :authority of every call and reflection stream; <hex> = the gun option
+//	                  dial_options.authority (- = not configured: the authority is the address dialled);
+//	                  dt=<ms> = dial_options.timeout.  The observation then ends with  auth=<a>+<a>…  (distinct
+//	                  values, hex; "target" / "side" = the address of the target / of the reflection side-car)
 //	scen <ninst>[r] <timeout_ms> <order> <users> <calls> <scenarios> [rm=<meta>] [fl=<plan>]   (r: reflect_port as above)
 //	    order     = instance index per shot (comma list); shot j: instance order[j] acquires the
 //	                next scenario ammo from the real grpc/scenario provider and shoots it
@@ -199,6 +203,52 @@ func sideNote(s string) string {
 	return s
 }
 
+// dial options of a case: au=<hex|->, dt=<ms>
+func dialOpts(f []string) (observe bool, d grpcgun.GrpcDialOptions) {
+	for _, x := range f {
+		switch {
+		case strings.HasPrefix(x, "au="):
+			observe = true
+			if x[3:] != "-" {
+				d.Authority = string(vh.UnHex(x[3:]))
+			}
+		case strings.HasPrefix(x, "dt="):
+			ms, _ := strconv.Atoi(x[3:])
+			d.Timeout = time.Duration(ms) * time.Millisecond
+		}
+	}
+	return
+}
+
+// authNote appends the :authority values the servers saw (only for cases that ask for it).
+func authNote(observe bool, s string) string {
+	if !observe {
+		srv.DrainAuthorities()
+		side.DrainAuthorities()
+		return s
+	}
+	set := map[string]bool{}
+	for _, a := range append(srv.DrainAuthorities(), side.DrainAuthorities()...) {
+		switch a {
+		case srv.Addr:
+			set["target"] = true
+		case side.Addr:
+			set["side"] = true
+		default:
+			set[vh.HexS(a)] = true
+		}
+	}
+	var l []string
+	for a := range set {
+		l = append(l, a)
+	}
+	sort.Strings(l)
+	if len(l) == 0 {
+		l = []string{"none"}
+	}
+	return s + " auth=" + strings.Join(l, "+")
+}
+
 // trailing options of a case: rm=<meta>, fl=<plan>
 func caseOpts(f []string) (rm map[string]string, fl string) {
 	for _, x := range f {
@@ -310,8 +360,11 @@ func runJSON(f []string) string {
 	conf := gunConf(shared, clients, tmo, reflect)
 	rm, fl := caseOpts(f[7+n:])
 	conf.ReflectMetadata = rm
+	var obsAuth bool
+	obsAuth, conf.DialOptions = dialOpts(f[7+n:])
 	side.Drain()
 	drainRefl()
+	authNote(false, "")
 	prov := grpcjson.NewProvider(fs, grpcjson.Config{File: name, Passes: 1})
 	log := zap.NewNop()
 	srv.Drain()
@@ -353,7 +406,7 @@ func runJSON(f []string) string {
 		if len(ag.s) == 0 {
 			ag.s = []string{"-"}
 		}
-		return sideNote(res + " " + strings.Join(ag.s, ",") + " " + strings.Join(cs, "|"))
+		return authNote(obsAuth, sideNote(res+" "+strings.Join(ag.s, ",")+" "+strings.Join(cs, "|")))
 	}
 
 	ctx, cancel := context.WithCancel(context.Background())
@@ -394,9 +447,9 @@ func runJSON(f []string) string {
 		out = append(out, cstr+";"+callsStr(srv.Drain()))
 	}
 	if len(out) == 0 {
-		return sideNote("-")
+		return authNote(obsAuth, sideNote("-"))
 	}
-	return sideNote(strings.Join(out, " "))
+	return authNote(obsAuth, sideNote(strings.Join(out, " ")))
 }
 
 // ---- scenario ----
@@ -493,8 +546,11 @@ func runScen(f []string) string {
 	}
 	rm, fl := caseOpts(f[7:])
 	gconf.ReflectMetadata = rm
+	obsAuth, dopts := dialOpts(f[7:])
+	gconf.DialOptions.Authority, gconf.DialOptions.Timeout = dopts.Authority, dopts.Timeout
 	side.Drain()
 	drainRefl()
+	authNote(false, "")
 	wg := grpcscen.NewGun(gconf)
 	sd, err := wg.WarmUp(&warmup.Options{Log: log, Ctx: ctx})
 	if err != nil {
@@ -544,7 +600,7 @@ func runScen(f []string) string {
 		}
 		shots = append(shots, strings.Join(steps, "|"))
 	}
-	return sideNote(strings.Join(shots, "#"))
+	return authNote(obsAuth, sideNote(strings.Join(shots, "#")))
 }
 
 func runCase(c string) (res string) {
